@@ -6,9 +6,11 @@ META = dict(
                 "IPNS name conversion graph are written in TLA+; TLC proves idempotence / no-dots / same-root-CID / URI=path on "
                 "every enumerated case and prints the expected observable; every case (all token sequences up to length 3/4 over "
                 "19 token classes, up to 5/6 over 8 representative classes, 20 scheme x separator URI variants, all conversion "
-                "paths up to length 3/4 over 12 edges x 4 key types, 6 rejected forms) is executed on the real "
+                "paths up to length 3/4 over 12 edges x 4 key types and up to 2/3 for each of 59 binary key classes [multihash framing x "
+                "byte-value class ('/', 0x00, 0xff, \"/ipns/\", other) of the first / last key bytes], 6 rejected forms) is executed on the real "
                 "path.NewPath / NewPathFromURI / StringToSegments / ipns.Name code and compared; long random sequences recorded "
-                "from the code are validated by TracePathSyntax."),
+                "from the code are validated by TracePathSyntax, which also re-derives byte for byte RoutingKey() and NameFromRoutingKey on 9 "
+                "byte strings derived from the concrete multihash of every key class."),
     level_note=("Trusted: go-cid / go-multibase / go-libp2p peer decoding; harness token table (self-checked: each token decodes "
                 "or fails to decode as the spec's CidOf says). Strings are restricted to the token alphabet joined by '/'."),
     technique="TLA+ rule + exhaustive class-product enumeration by TLC replayed into the code; recorded parser calls validated by a trace spec",
@@ -41,7 +43,9 @@ def replay(ctx, binp, cases, nontrivial, keep=5):
 def run(ctx):
     ctx.assumptions += ["inputs are '/'-joined sequences over the 19-token alphabet (namespaces, CIDs in 4 encodings, peer ids, "
                         "dots, empty segments, unicode, spaces)",
-                        "cid.Decode / peer.Decode are correct for the concrete token texts (self-checked per run)"]
+                        "cid.Decode / peer.Decode are correct for the concrete token texts (self-checked per run)",
+                        "binary keys: one concrete peer ID per key class and run (brute-forced secp256k1/ECDSA/RSA keys, identity multihashes of "
+                        "chosen ed25519 key bytes, sha2-256 digests by search, raw multihashes with hash code 0x2f); one-byte varint framing only"]
     ctx.cov["rule"] = ("G: every state of PathSyntax (cases grown token by token, BFS-exhaustive up to the bound) = one call "
                        "battery on the real code: NewPath, re-parse of String(), Segments, Namespace, Mutable, RootCid, "
                        "NewImmutablePath, NewPathFromSegments, StringToSegments, NewPathFromURI, name conversions. "
@@ -73,7 +77,13 @@ def run(ctx):
         ctx.broken("enumeration is vacuous: only %d accepted paths" % acc)
     ctx.cov["exhaustive"] = True
     # T
-    recs, out, rc = ctx.go_run(binp, "TestVerifC28", pkg="ipns", mode="record")
+    # the binary key classes of the spec (roots of the "n" family): the harness logs the concrete bytes it uses for each
+    kcs = [c["key"] for c in cases if c["k"] == "n" and not c["es"]]
+    if len(kcs) < 20 or not any(k["lst"] == "sl" for k in kcs):
+        ctx.broken("key class universe of the spec is vacuous: %d classes" % len(kcs))
+        return
+    recs, out, rc = ctx.go_run(binp, "TestVerifC28", pkg="ipns", mode="record",
+                               infile=ctx.write_ndjson("keyclasses_TestVerifC28.ndjson", kcs))
     if rc != 0 or not recs:
         ctx.broken("record driver died: " + out[-1500:])
         return
@@ -83,6 +93,13 @@ def run(ctx):
             return
 
     def corrupt(rs):
+        if ctx.seed % 2 == 0:               # even seeds: the control is on the binary name events instead
+            nk = [i for i, r in enumerate(rs) if r["ev"] == "NameRK" and r["v"] == "exact" and r["r"]["ok"]]
+            if nk:
+                i = nk[len(nk) // 2]
+                bad = [dict(r) for r in rs]
+                bad[i]["r"] = dict(ok=True, mh=bad[i]["r"]["mh"][:-1])   # pretend the last byte of the key was cut off
+                return bad, i
         idx = [i for i, r in enumerate(rs) if r["ev"] == "Parse" and r["p"]["ok"] and len(r["p"]["segs"]) >= 3]
         if not idx:
             return None, None
